@@ -1,9 +1,10 @@
 """C17 bounded stand-in (relational): density-estimation caching (reuse_old_values) and the size-dependent implementations
 (internal constant 200) of the real DensityEstimation operation are transparent.
 
-Every clause compares two executions of the REAL code with each other (reuse on vs off on the same data and refinement history;
-small-grid vs large-grid implementation on the same grid).  The reference helpers of C16 are used only to generate data / grids
-and to name the witness class of a right-hand-side mismatch, never for a verdict.
+The B.reuse.* / B.size.* clauses compare two executions of the REAL code with each other (reuse on vs off on the same data and
+refinement history; small-grid vs large-grid implementation on the same grid); there the reference helpers of C16 only generate data /
+grids and name witness classes.  The B.hist.* clauses follow ONE run through its history and compare the interpolated densities with
+the definition (reference hats of C16 on the current stripes), because a stale state cannot be seen by comparing with an earlier answer.
 """
 import itertools
 import random
@@ -17,7 +18,8 @@ BOUND = ("boundary-free hat basis on [0,1]^d; (A) reuse on/off: real SpatiallyAd
          "(lmin,lmax) in {(4,4),(3,4)}, 1..2 steps; the same value-independent seeded adversarial ErrorCalculator drives both runs, so the "
          "refinement histories coincide; data sets of 1..40 samples in the closed unit cube (random / dyadic grid lines / boundary / "
          "clustered / mixed), lambda in {0,1e-3,0.1}, labels none or +-1, mass lumping on/off, rebalancing on/off, margin in {0.5,0.9}; "
-         "small-grid histories are run natively and, in the harness process only, with the size constant 200 of "
+         "a third of the histories is continued by continue_adaptive_refinement (1..2 more steps) and a third uses the large-grid "
+         "interpolation on every grid (constant 200 -> 0, harness only); small-grid histories are run natively and, in the harness process only, with the size constant 200 of "
          "calculate_B_dimension_wise replaced by 0 in BOTH runs (so the reuse implementation is exercised on small grids); comparison "
          "after every evaluation round; (B) size paths: uniform grids with levels 1..4 (N<=400) and bisection-tree grids with N in "
          "[1,330] incl. N in {195,196,200,210,216}: the real functions with the constant 200 replaced by 0 resp. 10**9 and the "
@@ -40,6 +42,11 @@ CLAUSES = {
     "B.size.interpolation": "interpolate_points_component_grid: small-grid (vectorised) and large-grid (per-point) implementations "
                             "agree, abs 1e-10 (relative to max |surplus|)",
     "B.run.returns": "the real entry points return normally on valid input",
+    "B.hist.density_definition": "after every evaluation round of one run (also after continue_adaptive_refinement) the combined density at "
+                                 "the SAME probe points == sum_grids coefficient * sum_i alpha_i phi_i(x) with reference hats on the current "
+                                 "stripes and the current surpluses, 1e-9 * (1 + max); natively and with the large-grid interpolation forced",
+    "B.hist.idempotent": "evaluating the combined density twice at the same points on the same objects gives identical values",
+    "B.hist.report_stable": "density and surplus arrays handed out in earlier rounds still equal the copies taken then, at the end of the run",
 }
 
 DE = ref.DE
@@ -87,8 +94,13 @@ def run_history(ctx, case, reuse):
         rhs[(state["round"] + 1, ref.stripes_key(stripes))] = (np.array(b, dtype=float), had_old)
         return b
     op.calculate_B_dimension_wise = calculate_B_dimension_wise
+    if case.get("interp_forced"):
+        # harness process only: the large-grid (per-point) interpolation is used on every grid during the whole history
+        if not ref.patch_threshold(op, "interpolate_points_component_grid", 0):
+            ctx.note("interpolate_points_component_grid has no constant 200 any more: interpolation runs natively")
     P = probe_points(d, case["data"]["seed"] + 17)
     snaps = {}
+    live = []                                          # (round, what, object handed out, copy at that time)
 
     def hook(rnd, sa):
         state["round"] = rnd
@@ -98,15 +110,67 @@ def run_history(ctx, case, reuse):
                          for cg in sa.scheme}}
         try:
             with quiet():
-                snap["dens"] = np.array(sa(P), dtype=float)
+                first = sa(P)
+                second = sa(P)
+            snap["dens"] = np.array(first, dtype=float)
+            snap["dens_again"] = np.array(second, dtype=float)
+            if isinstance(first, np.ndarray):
+                live.append((rnd, "density", first, first.copy()))
         except Exception as e:  # reported through the density clause of the pair
             snap["dens_error"] = "%s: %s" % (type(e).__name__, e)
+        # the definition: sum over component grids of coefficient * sum_i alpha_i phi_i(x), reference hats on the CURRENT stripes
+        total = np.zeros(len(P))
+        for cg in sa.scheme:
+            lv = tuple(int(x) for x in cg.levelvector)
+            stripes = [list(x) for x in snap["keys"][lv]]
+            al = snap["surpluses"].get(lv)
+            Phi = ref.basis_matrix(stripes, P)
+            if al is None or Phi.shape[1] != len(al):
+                total = None
+                break
+            total = total + float(cg.coefficient) * (Phi @ al)
+            if isinstance(op.surpluses.get(lv), np.ndarray):
+                live.append((rnd, "surpluses%s" % (lv,), op.surpluses[lv], op.surpluses[lv].copy()))
+        snap["dens_def"] = total
         snaps[rnd] = snap
     sa = None
     with ctx.guard("B.run.returns", SA, "dimwise-de-run-reuse-%s" % reuse):
         sa = ref.run_driver(op, d, case["lmin"], case["lmax"], case["steps"], case["margin"], case["rebal"], case["oracle_seed"], hook=hook)
+    if sa is not None and case.get("continue_steps"):
+        # second stage on the same objects: the refinement is continued after the stop
+        with ctx.guard("B.run.returns", "sparseSpACE.spatiallyAdaptiveBase:SpatiallyAdaptivBase.continue_adaptive_refinement", "dimwise-de-continue-reuse-%s" % reuse):
+            sa.errorEstimator.steps = max(snaps) + case["continue_steps"] if snaps else case["continue_steps"]
+            with quiet():
+                sa.continue_adaptive_refinement(tol=0.0)
     del op.calculate_B_dimension_wise
+    check_history_clauses(ctx, case, snaps, live, reuse)
     return op, sa, snaps, rhs
+
+
+def check_history_clauses(ctx, case, snaps, live, reuse):
+    """single-run history clauses: values against the definition after every round (also after continue), repeated query, stability
+    of everything handed out"""
+    import numpy as np
+    path = "forced-large-interp" if case.get("interp_forced") else ("native-large" if case["lmax"] >= 4 else "native-small")
+    first_stage = case["steps"] + 1
+    for rnd in sorted(snaps):
+        sn = snaps[rnd]
+        tag = path + ("-after-continue" if rnd > first_stage else "") + ("-reuse" if reuse else "")
+        if "dens" not in sn:
+            ctx.check("B.hist.density_definition", False, ML + "interpolate_points_component_grid", tag + "-raises",
+                      "round %d: evaluation of the combined density raised: %s" % (rnd, sn.get("dens_error")))
+            continue
+        if sn["dens_def"] is not None:
+            dd = sn["dens"].reshape(-1) - sn["dens_def"]
+            scale = 1e-9 * (1.0 + float(np.max(np.abs(sn["dens_def"]))))
+            ctx.check("B.hist.density_definition", bool(np.all(np.abs(dd) <= scale)), ML + "interpolate_points_component_grid", tag,
+                      "round %d: combined density differs from sum coeff * sum_i alpha_i phi_i(x) on the current grids by %.3e at %d of %d points"
+                      % (rnd, float(np.max(np.abs(dd))), int(np.sum(np.abs(dd) > scale)), len(dd)))
+        ctx.check("B.hist.idempotent", np.array_equal(sn["dens"], sn["dens_again"]), ML + "interpolate_points_component_grid", tag,
+                  "round %d: evaluating the same points twice gave different values (max %.3e)" % (rnd, float(np.max(np.abs(sn["dens"] - sn["dens_again"])))))
+    bad = [(rnd, what) for rnd, what, obj, cp in live if not np.array_equal(obj, cp)]
+    ctx.check("B.hist.report_stable", not bad, SA, path + ("-reuse" if reuse else ""),
+              "arrays handed out in earlier rounds were modified later: %s" % bad[:4])
 
 
 def classify_rhs(data, labels, stripes, b_on, b_off):
@@ -356,7 +420,8 @@ def run(ctx):
         lmin, lmax = rng.choice([(1, 2), (1, 3), (2, 3)]) if d == 2 else rng.choice([(1, 2), (1, 2), (1, 3)])
         case = {"kind": "history", "d": d, "lmin": lmin, "lmax": lmax, "steps": rng.choice([1, 2, 3]) if d == 2 else rng.choice([1, 2]),
                 "margin": rng.choice([0.5, 0.9]), "rebal": rng.random() < 0.5, "oracle_seed": rng.randrange(10 ** 6),
-                "lam": rng.choice(ref.LAMBDAS), "ml": rng.random() < 0.25, "data": ref.random_data_desc(rng), "forced": k % 2 == 1}
+                "lam": rng.choice(ref.LAMBDAS), "ml": rng.random() < 0.25, "data": ref.random_data_desc(rng), "forced": k % 2 == 1,
+                "interp_forced": k % 3 == 0, "continue_steps": rng.choice([0, 1, 2])}
         ctx.case(case)
         case_history(ctx, case)
     tsec["history"] = time.time() - t0
@@ -369,7 +434,7 @@ def run(ctx):
         lmin, lmax = (4, 4) if k % 2 == 0 else (3, 4)
         case = {"kind": "history", "d": 2, "lmin": lmin, "lmax": lmax, "steps": 1 if k % 2 == 0 else 2, "margin": 0.9,
                 "rebal": rng.random() < 0.5, "oracle_seed": rng.randrange(10 ** 6), "lam": rng.choice(ref.LAMBDAS), "ml": quick or k % 5 != 4,
-                "data": ref.random_data_desc(rng, mmax=20), "forced": False}
+                "data": ref.random_data_desc(rng, mmax=20), "forced": False, "interp_forced": False, "continue_steps": 1}
         ctx.case(case)
         case_history(ctx, case)
     tsec["history_large"] = time.time() - t0
